@@ -684,7 +684,8 @@ fn gen_loop(r: &mut Rng, i: usize) -> LoopCase {
             tokn += 1;
             // provider-chosen function names on and beyond the schema's limits for a function_call item (1..=64
             // characters of [a-zA-Z0-9_-]): they make the STATELESS follow-up (which echoes the call) schema-invalid
-            let name = if r.chance(1, if poison { 5 } else { 15 }) {
+            // (runs meant to reach the 32-call bound keep to ordinary names: a refused follow-up would end them early)
+            let name = if !big && r.chance(1, if poison { 5 } else { 15 }) {
                 match r.below(if poison { 7 } else { 1 }) {
                     0 => String::new(),
                     1 => "functions.read".to_string(),
@@ -1401,7 +1402,17 @@ fn main() {
     let a = parse_args();
     let mut res = RunResult::new("C16", &a);
     res.rule = "cases = (a) provider event lists for the collector from a clean grammar (unique ids, per-item order added/deltas/done, 5 argument deliveries) and a dirty one (missing/empty/shared/non-string ids, non-u64 output_index, any order, repeated events); (b) tool_choice values of every shape incl. malformed ones with probe names; (c) whole runs: config (history mode, tool_choice, follow-up message) x scripted provider rounds (clean/dirty events, [DONE] or not, HTTP error, dropped connection, random HTTP chunking, runs into the 32-call bound) with marker tools; non-trivial = at least one provider event; distinct by hash of the canonical case".into();
-    let st = schema::self_test();
+    let mut st = schema::self_test();
+    let mut known_vs_implementation = 0usize;
+    for (b, want) in schema::known_bodies() {
+        if schema_errors(&b).is_empty() != want {
+            st.push(format!("known body judged wrongly (expected valid={want}): {b} -> {:?}", schema_errors(&b)));
+        }
+        if rip_openresponses::validate_create_response_body(&b).is_ok() != want {
+            known_vs_implementation += 1;
+        }
+    }
+    res.bump_by("known-bodies-where-the-implementation-differs-from-the-schema", known_vs_implementation as u64);
     if !st.is_empty() || !schemas().has("CreateResponseBody.json") || !schemas().has("ItemParam.json") {
         eprintln!("c16: the schema judge failed its self-test: {st:?}");
         std::process::exit(2);
